@@ -27,6 +27,13 @@
 EXTENDS ExactNum, TLC
 
 Dsc(cls, sub, q, s, id) == [cls |-> cls, sub |-> sub, q |-> q, s |-> s, id |-> id]
+\* NEAR-equal numbers: <<n, d, k>> is the floating-point number k ulps next to n/d (k # 0).  It is a different
+\* number than <<n, d>> -- equality of coordinates, constants and exponents is EXACT (the tolerant comparison
+\* is the separate, documented approx_equals) -- so plain equality of the tuples is the right comparison.
+QU(n, d, k) == <<n, d, k>>
+RECURSIVE HasUlp(_)
+HasUlp(d) == (\E v \in 1..Len(d.q) : \E i \in 1..Len(d.q[v]) : Len(d.q[v][i]) = 3)
+             \/ \E k \in 1..Len(d.sub) : HasUlp(d.sub[k])
 
 SetClasses   == {"EmptySet", "UniversalSet", "RealNumbers", "ComplexNumbers", "Integers", "Strings",
                  "CartesianProduct", "SetUnion", "SetIntersection", "FiniteSet", "IntervalProd",
